@@ -4,21 +4,21 @@ CONSTANTS
   NamedLo = 3
   DynLo = 5
   WksAddr = 2
-  Names = {"wk", "n1", "n2"}
+  Names = {"wk", "n1", "n2", "n3"}
   MaxSock <- Max31
-  KindSeq <- SeqNamesQ
-  Roles <- NameOps
-  Msgs = {1, 2}
+  KindSeq <- SeqDgram
+  Roles <- DgramOps
+  Msgs = {1}
   BindAddrs <- BA
-  Dsts = {2, 3, 5, 6}
-  RecvBuf = 2
+  Dsts = {2, 5, 6}
+  RecvBuf = 1
   Backlog = 1
   WksCheck = TRUE
   SnlClean = TRUE
   KeepDead = FALSE
   Miu <- MiuAB
-  Lens = {1}
-  HdrInMiu = FALSE
+  Lens = {0, 3, 4}
+  HdrInMiu = TRUE
 VIEW View
 INVARIANT OneAddrPerSocket
 INVARIANT NoDoubleAlloc
